@@ -366,10 +366,24 @@ Proof. vm_compute. repeat split; reflexivity. Qed.
    definitional; what they do establish: the checked slice [..len] does not panic on a well-formed
    container, the raw slot reading is the live prefix, the world is returned as is.
 
-   FORMATTER FLAGS (finding 5).  Width / precision / fill / alignment / sign flags ("{:>10}",
-   "{:.3}", "{:+}") are OUTSIDE every statement of this file: the model's renderers take no flag
-   except '#' (the [alt] argument).  The crate's impls hand the formatter to the elements; the
-   runtime oracle FMT_SHAPE of the correspondence check exercises flags for Debug.
+   FORMATTER FLAGS (finding 5) — OUTSIDE EVERY STATEMENT.  Width / precision / fill / alignment /
+   sign flags ("{:>10}", "{:.3}", "{:+}") are outside every statement of this file: the model's
+   renderers take no flag except '#' (the [alt] argument), and only for Debug.  What the crate
+   does with them, read off the source (second audit), and which the flagless model CANNOT
+   express:
+     - Display for Set (src/set/display.rs) calls `k.fmt(f)` on every element with the caller's
+       formatter: the flags of `format!("{:>5}", set)` are FORWARDED to each element (each element
+       is padded / truncated separately; the braces and ", " separators are written with
+       write_char / write_str and are never padded);
+     - Display for Map (src/display.rs) uses `write!(f, "{k}: {v}")` / `write!(f, ", {k}: {v}")`:
+       every key and value is formatted with a FRESH default "{}" specification, so the caller's
+       flags are DISCARDED (`format!("{:>5}", map)` = `format!("{}", map)`);
+     - so the two Display impls are not symmetric under flags; display_map / display_set model
+       only the flagless call "{}", on which they agree in shape (C19_display_map_spec,
+       C19_display_set_spec);
+     - Debug for Map / Set and for the iterators goes through core::fmt's DebugMap / DebugSet /
+       DebugList builders, which hand the formatter (hence the flags, hence '#') to the elements;
+       the runtime oracle FMT_SHAPE of the correspondence check exercises flags for Debug.
 
    New vocabulary (Proofs/MoreFmt.v):
      nlfree s                 — the string s contains no '\n';
@@ -903,3 +917,138 @@ Proof. vm_compute. repeat split. Qed.
 Example C19_example_union_spec_list :
   List.map fst (alg_spec_list 2 C19_sa C19_sb) = [k_ 7 6; k_ 9 8; k_ 1 5].
 Proof. vm_compute. reflexivity. Qed.
+
+(* ========================================================================== *)
+(* APPENDED SECTION, ROUND 2 (second audit) — Proofs/MoreFmt.v, part "ROUND 2"
+   ========================================================================== *)
+
+(* -------------------------------------------------------------------------- *)
+(* "formatting never changes the container" for DRAIN (C19_drain_debug_rest_render says
+   nothing about the final world).  The interpreter's Debug of a Drain, for EVERY cursor and
+   EVERY world (well formed or not): the string is the debug_pairs rendering of the cursor's
+   raw slots and the world returned is literally the world given. *)
+Theorem C19_dbg_range_world :
+  forall (V : Type) (dk : key -> str) (dv : V -> str) (alt : bool) (c : cursor) (w : world key V cstate),
+    dbg_range dk dv alt c w = Ok (r_str (debug_pairs dk dv alt (range_list (self w) c))) w.
+Proof. exact (@dbg_range_world). Qed.
+Print Assumptions C19_dbg_range_world.
+
+(* session level: drain(), n calls of next(); in the state w1 reached (the container was
+   emptied by drain(): len 0, same capacity, nothing logged; the first n entries have been
+   moved out) formatting the Drain returns the rendering of exactly the entries not yet
+   yielded AND w1 itself *)
+Theorem C19_drain_debug_rest_render_at :
+  forall (V : Type) (dk : key -> str) (dv : V -> str) (alt : bool) (n : nat) (w : world key V cstate),
+    WF (self w) ->
+    wp (c <- drain ;; drain_run n c)
+       (fun (r : list (key * V) * cursor) (w1 : world key V cstate) =>
+          fst r = firstn n (Spec.elems (self w)) /\
+          len (self w1) = 0 /\ cap (self w1) = cap (self w) /\ log w1 = log w /\
+          dbg_range dk dv alt (snd r) w1 =
+          Ok (r_str (debug_pairs dk dv alt (skipn n (Spec.elems (self w))))) w1)
+       (fun _ : world key V cstate => False) w.
+Proof. exact (@drain_debug_rest_render_at). Qed.
+Print Assumptions C19_drain_debug_rest_render_at.
+
+(* -------------------------------------------------------------------------- *)
+(* The definitions the set-algebra theorems above are stated with, restated (each is the
+   definition itself, by reflexivity), so that this file can be read on its own. *)
+Theorem C19_alg_spec_list_def :
+  forall (kind : N) (a b : map key unit),
+    alg_spec_list kind a b =
+    if (kind =? 2)%N then
+      Spec.elems b ++ filter (fun p : key * unit => negb (mem kcls b (fst p))) (Spec.elems a)
+    else if (kind =? 3)%N then
+      filter (fun p : key * unit => negb (mem kcls b (fst p))) (Spec.elems a) ++
+      filter (fun p : key * unit => negb (mem kcls a (fst p))) (Spec.elems b)
+    else if (kind =? 1)%N then filter (fun p : key * unit => mem kcls b (fst p)) (Spec.elems a)
+    else filter (fun p : key * unit => negb (mem kcls b (fst p))) (Spec.elems a).
+Proof. reflexivity. Qed.
+Print Assumptions C19_alg_spec_list_def.
+
+(* [mem kcls b k]: the linear scan of b finds an entry of k's class *)
+Theorem C19_mem_def :
+  forall (b : map key unit) (k : key),
+    mem kcls b k = match find_idx kcls (kcls k) (Spec.elems b) with Some _ => true | None => false end.
+Proof. reflexivity. Qed.
+Print Assumptions C19_mem_def.
+
+Theorem C19_alg_st0_def :
+  forall (kind : N) (a b : map key unit),
+    alg_st0 kind a b =
+    if (kind =? 2)%N then AChain {| front := Some (0, len b); back := (0, len a) |}
+    else if (kind =? 3)%N then AChain {| front := Some (0, len a); back := (0, len b) |}
+    else ACur (0, len a).
+Proof. reflexivity. Qed.
+Print Assumptions C19_alg_st0_def.
+
+Theorem C19_alg_items_def :
+  forall (kind : N) (a b : map key unit) (st : astate),
+    alg_items kind a b st =
+    match st with
+    | ACur c => List.map (fun i : nat => (false, i)) (sel kcls a b (kind =? 1)%N (fst c) (cursor_len c))
+    | AChain u => if (kind =? 2)%N then union_items kcls a b u else symdiff_items kcls a b u
+    end.
+Proof. reflexivity. Qed.
+Print Assumptions C19_alg_items_def.
+
+Theorem C19_alg_keys_def :
+  forall (a b : map key unit) (items : list (bool * nat)),
+    alg_keys a b items =
+    flat_map (fun x : bool * nat =>
+                match nth_error (Spec.elems (if fst x then b else a)) (snd x) with
+                | Some p => [fst p]
+                | None => []
+                end) items.
+Proof. reflexivity. Qed.
+Print Assumptions C19_alg_keys_def.
+
+Theorem C19_ast_ok_def :
+  forall (a b : map key unit) (kind : N) (st : astate),
+    ast_ok a b kind st =
+    match st with
+    | ACur c => fst c <= snd c /\ snd c <= len a
+    | AChain u => if (kind =? 2)%N then chain_ok (len b) (len a) u else chain_ok (len a) (len b) u
+    end.
+Proof. reflexivity. Qed.
+Print Assumptions C19_ast_ok_def.
+
+Theorem C19_eq_only_def :
+  forall s s' : cstate,
+    eq_only s s' =
+    (n_clone s' = n_clone s /\ n_call s' = n_call s /\ next_id s' = next_id s /\ (n_eq s <= n_eq s')%N).
+Proof. reflexivity. Qed.
+Print Assumptions C19_eq_only_def.
+
+(* [ast_ok] is satisfiable: the state alg_init returns and the state after two calls of
+   next(), for a Union (a chain) and for an Intersection (a cursor), on the sets sa, sb above *)
+Example C19_example_ast_ok_union :
+  match (st <- alg_init 2 C19_sa C19_sb ;;
+         r1 <- alg_next C19_sc0 2 C19_sa C19_sb st ;;
+         r2 <- alg_next C19_sc0 2 C19_sa C19_sb (snd r1) ;;
+         ret (st, snd r2, (fst r1, fst r2))) (C19_ws C19_sa) with
+  | Ok (st, st2, ys) _ =>
+      ast_ok C19_sa C19_sb 2 st /\ ast_ok C19_sa C19_sb 2 st2 /\
+      st = AChain {| front := Some (0, 2); back := (0, 2) |} /\
+      st2 = AChain {| front := Some (2, 2); back := (0, 2) |} /\
+      ys = (Some (true, 0), Some (true, 1))
+  | _ => False
+  end.
+Proof.
+  vm_compute. unfold chain_ok. cbn [front back fst snd].
+  repeat split; try reflexivity; lia.
+Qed.
+
+Example C19_example_ast_ok_inter :
+  match (st <- alg_init 1 C19_sa C19_sb ;;
+         r1 <- alg_next C19_sc0 1 C19_sa C19_sb st ;;
+         r2 <- alg_next C19_sc0 1 C19_sa C19_sb (snd r1) ;;
+         ret (st, snd r2, (fst r1, fst r2))) (C19_ws C19_sa) with
+  | Ok (st, st2, ys) _ =>
+      ast_ok C19_sa C19_sb 1 st /\ ast_ok C19_sa C19_sb 1 st2 /\
+      st = ACur (0, 2) /\ st2 = ACur (2, 2) /\ ys = (Some (false, 1), None)
+  | _ => False
+  end.
+Proof.
+  vm_compute. repeat split; try reflexivity; lia.
+Qed.
